@@ -13,9 +13,9 @@
 (*    dict hash either as documented/coded - insertion order - or          *)
 (*    canonical, switch `Canonical`).                                      *)
 (* 3. The algebraic laws of the property as operators over a record `T`    *)
-(*    of relation tables.  `T` is a CONSTANT: the design-level model       *)
-(*    substitutes the reference tables (T <- RefT), the conformance model  *)
-(*    (module OrderObs) substitutes the tables OBSERVED on the real code.  *)
+(*    of relation tables: the reference tables when Mode = "design" (the   *)
+(*    documented design is model-checked), the tables OBSERVED on the real *)
+(*    code and loaded from a JSON file when Mode = "observed".             *)
 (* 4. A state machine that walks all pairs (the laws are invariants of a   *)
 (*    pair state, triples are quantified inside) and an abstract insertion *)
 (*    sort driven by T.lt whose result must be sorted for every pair and   *)
@@ -30,12 +30,12 @@
 (* Table cells are ints: 0 = False, 1 = True, 2 = the call raised, 3 = the *)
 (* call returned something that is not a bool.                             *)
 (***************************************************************************)
-EXTENDS Integers, Sequences, FiniteSets, TLC, SequencesExt
+EXTENDS Integers, Sequences, FiniteSets, TLC, SequencesExt, Json, IOUtils
 
 CONSTANTS Tier,        \* "quick" | "thorough" : size of the universe
           Canonical,   \* FALSE: dict lt / pg.Dict hash in insertion order (documented, coded)
                        \* TRUE : on sorted keys (the repaired design)
-          T            \* relation tables the laws are evaluated on (see RefT for the shape)
+          Mode         \* "design": T = reference tables; "observed": T = tables observed on the real code
 
 VARIABLES i, j,        \* the pair under examination (0 = not chosen yet)
           sid, inp, out, bad   \* abstract sort: sample id, remaining input, sorted prefix, "a comparison raised"
@@ -235,21 +235,28 @@ EqUndetermined(x, y) ==
 -----------------------------------------------------------------------------
 (* Reference tables (same shape as the observed ones) *)
 Bit(b) == IF b THEN 1 ELSE 0
-EqRef == [a \in Ix |-> [b \in Ix |-> Bit(EqV(V(a), V(b)))]]
-LtRef == [a \in Ix |-> [b \in Ix |-> Bit(LtV(V(a), V(b)))]]
-SortInputsRef == <<[in |-> [k \in 1..(IF N < 7 THEN N ELSE 7) |-> N + 1 - k], raised |-> 0, out |-> <<>>],
-                   [in |-> [k \in 1..(IF N < 7 THEN N ELSE 7) |-> ((k * 37) % N) + 1], raised |-> 0, out |-> <<>>]>>
-RefT == [eq |-> EqRef,
-         ne |-> [a \in Ix |-> [b \in Ix |-> 1 - EqRef[a][b]]],
-         lt |-> LtRef,
-         gt |-> [a \in Ix |-> [b \in Ix |-> LtRef[b][a]]],
-         opeq |-> EqRef,
-         opne |-> [a \in Ix |-> [b \in Ix |-> 1 - EqRef[a][b]]],
-         hashok |-> [a \in Ix |-> Bit(HashDef(a))],
-         hash |-> [a \in Ix |-> HK(V(a))],
-         ophashok |-> [a \in Ix |-> Bit(HashDef(a))],
-         ophash |-> [a \in Ix |-> HK(V(a))],
+\* (TLC keeps [x \in S |-> e] as an unevaluated closure; `\o <<>>` forces an explicit tuple so that each
+\* table is computed once.)
+EqRef == [a \in Ix |-> ([b \in Ix |-> Bit(EqV(V(a), V(b)))] \o <<>>)] \o <<>>
+LtRef == [a \in Ix |-> ([b \in Ix |-> Bit(LtV(V(a), V(b)))] \o <<>>)] \o <<>>
+NeRef == [a \in Ix |-> ([b \in Ix |-> 1 - EqRef[a][b]] \o <<>>)] \o <<>>
+GtRef == [a \in Ix |-> ([b \in Ix |-> LtRef[b][a]] \o <<>>)] \o <<>>
+HashOkRef == [a \in Ix |-> Bit(HashDef(a))] \o <<>>
+HashRef == [a \in Ix |-> HK(V(a))] \o <<>>
+NS == IF N < 7 THEN N ELSE 7
+SortInputsRef == <<[in |-> [k \in 1..NS |-> N + 1 - k], raised |-> 0, out |-> <<>>],
+                   [in |-> [k \in 1..NS |-> ((k * 37) % N) + 1], raised |-> 0, out |-> <<>>]>>
+RefT == [eq |-> EqRef, ne |-> NeRef, lt |-> LtRef, gt |-> GtRef, opeq |-> EqRef, opne |-> NeRef,
+         hashok |-> HashOkRef, hash |-> HashRef, hashrok |-> HashOkRef, hashr |-> HashRef, ophashok |-> HashOkRef, ophash |-> HashRef,
          sorts |-> SortInputsRef]
+
+\* the tables observed on the real code (written by pgverif/order.py): same shape, hash / ophash are indices of
+\* classes of equal hash values (hash values themselves do not fit TLC's 32-bit ints)
+Obs == IF Mode = "observed" THEN JsonDeserialize(IOEnv.OBS_FILE) ELSE <<>>
+
+\* the tables the laws are evaluated on.  (A definition, not a cfg substitution: TLC re-evaluates a substituted
+\* constant on every use, measured 40x slower.)
+T == IF Mode = "observed" THEN Obs ELSE RefT
 
 -----------------------------------------------------------------------------
 (* The laws, as predicates of a pair (a, b); third elements are quantified inside *)
@@ -260,7 +267,8 @@ Sym(a, b) == T.eq[a][b] = T.eq[b][a]
 TransEqAt(a, b, c) == (T.eq[a][b] = 1 /\ T.eq[b][c] = 1) => T.eq[a][c] = 1
 NeIsNotEq(a, b) == (IsBool(T.eq[a][b]) /\ IsBool(T.ne[a][b])) => T.ne[a][b] = 1 - T.eq[a][b]
 EqImpliesSameHash(a, b) ==
-  (T.eq[a][b] = 1 /\ HashDef(a) /\ HashDef(b) /\ T.hashok[a] = 1 /\ T.hashok[b] = 1) => T.hash[a] = T.hash[b]
+  \* hash: of the left copy of a value, hashr: of the right copy (cell [a][b] compares left a with right b)
+  (T.eq[a][b] = 1 /\ HashDef(a) /\ HashDef(b) /\ T.hashok[a] = 1 /\ T.hashrok[b] = 1) => T.hash[a] = T.hashr[b]
 OperatorsAgree(a, b) ==
   /\ (IsSymObj(a) \/ IsSymObj(b)) => (T.opeq[a][b] = T.eq[a][b] /\ T.opne[a][b] = T.ne[a][b])
   /\ (IsSymObj(a) /\ T.hashok[a] = 1) => (T.ophashok[a] = 1 /\ T.ophash[a] = T.hash[a])
@@ -269,7 +277,7 @@ Trichotomy(a, b) ==
 GtIsSwappedLt(a, b) == T.gt[a][b] = T.lt[b][a]
 TransLtAt(a, b, c) == (T.lt[a][b] = 1 /\ T.lt[b][c] = 1) => T.lt[a][c] = 1
 NoRaise(a, b) == /\ IsBool(T.eq[a][b]) /\ IsBool(T.ne[a][b]) /\ IsBool(T.lt[a][b]) /\ IsBool(T.gt[a][b])
-                 /\ HashDef(a) => T.hashok[a] = 1
+                 /\ HashDef(a) => (T.hashok[a] = 1 /\ T.hashrok[a] = 1)
 \* eq means structural equality wherever that notion is unambiguous (never applied to lt: any strict
 \* total order consistent with eq is acceptable, so no cell of T.lt is compared with LtRef)
 EqStructural(a, b) == (~EqUndetermined(V(a), V(b)) /\ IsBool(T.eq[a][b])) => T.eq[a][b] = EqRef[a][b]
